@@ -204,6 +204,11 @@ def run_regeneration(b, tier, seed):
             for t in TEXTS:
                 yield ('string', t)
                 yield ('textfile', t)
+            # the same assertions with stripping asked for, on texts with blank lines at either end
+            for t in ('alpha\nbeta\n\n\n', '\n\nalpha\nbeta\n', '  a  \n\n', ' \n a\n'):
+                for opt in ('lstrip', 'rstrip', 'lstrip+rstrip'):
+                    yield ('string+' + opt, t)
+                    yield ('textfile+' + opt, t)
             for pair in itertools.islice(itertools.product(TEXTS, repeat=2), 0, None, 7):
                 yield ('textfiles', pair)
             for bb in BYTES:
@@ -212,10 +217,12 @@ def run_regeneration(b, tier, seed):
                 yield ('frame', i)
 
         def do_assert(what, content, refname, kind):
+            what, _, opt = what.partition('+')
+            kw = {o: True for o in opt.split('+') if o}
             if what == 'string':
-                rt.assertStringCorrect(content, refname, kind=kind)
+                rt.assertStringCorrect(content, refname, kind=kind, **kw)
             elif what == 'textfile':
-                rt.assertTextFileCorrect(mk_actual('act.txt', content, False), refname, kind=kind)
+                rt.assertTextFileCorrect(mk_actual('act.txt', content, False), refname, kind=kind, **kw)
             elif what == 'textfiles':
                 a = [mk_actual('act%d.txt' % i, c, False) for i, c in enumerate(content)]
                 rt.assertTextFilesCorrect(a, [refname + '.0', refname + '.1'], kind=kind)
@@ -231,7 +238,7 @@ def run_regeneration(b, tier, seed):
 
         for what, content in scenarios():
             refname = {'string': 'r.txt', 'textfile': 'r.txt', 'textfiles': 'r.txt',
-                       'binary': 'r.bin', 'frame': 'r.parquet'}[what]
+                       'binary': 'r.bin', 'frame': 'r.parquet'}[what.partition('+')[0]]
             w = {'assertion': what, 'content': repr(content)[:120]}
             for kind in (None, 'table'):
                 # --- normal mode, for each history of the reference file -----------
